@@ -44,6 +44,8 @@ sys.path.insert(0, os.path.dirname(os.path.abspath(__file__)))
 import gen_leaves as GL
 from gen_leaves import INT, Unsupported, Parser, FnTranslator, Cx, Sig, paren, app, pow2, match_close, tokenize
 
+SINT = {"i8": 8, "i16": 16, "i32": 32, "i64": 64, "isize": 64}   # signed integers: values in Z (Base/Loops.v)
+
 # struct / free function homes for names imported from other files: (file that mentions it, name) -> file
 HOME = {
     ("src/bitvector/rs_narrow.rs", "BitVector"): "src/bitvector/mod.rs",
@@ -63,6 +65,8 @@ HOME = {
 TARGETS = list(GL.TARGETS) + [
     # ---- group bv: the accessors of BitVector and of its DataLine that the rank/select structures use
     ("src/bitvector/mod.rs", "DataLine", "get_word", "g_bline_get_word", {}),
+    ("src/bitvector/mod.rs", "DataLine", "rank1_unchecked", "g_bline_rank1_unchecked", {}),
+    ("src/bitvector/mod.rs", "DataLine", "rank1", "g_bline_rank1", {}),
     ("src/bitvector/mod.rs", "DataLine", "select1_unchecked", "g_bline_select1_unchecked", {}),
     ("src/bitvector/mod.rs", "DataLine", "select0_unchecked", "g_bline_select0_unchecked", {}),
     ("src/bitvector/mod.rs", "BitVectorMut", "get_bit_slice", "g_get_bit_slice", {}),
@@ -81,6 +85,28 @@ TARGETS = list(GL.TARGETS) + [
     ("src/bitvector/rs_narrow.rs", "RSNarrow", "select0_unchecked", "g_rsn_select0_unchecked", {}),
     ("src/bitvector/rs_narrow.rs", "RSNarrow", "select1", "g_rsn_select1", {}),
     ("src/bitvector/rs_narrow.rs", "RSNarrow", "select0", "g_rsn_select0", {}),
+    # ---- group rsw2: RSWide queries
+    ("src/bitvector/rs_wide.rs", "RSWide", "n_zeros", "g_rsw_n_zeros", {}),
+    ("src/bitvector/rs_wide.rs", "RSWide", "n_ones", "g_rsw_n_ones", {}),
+    ("src/bitvector/rs_wide.rs", "RSWide", "rank1_unchecked", "g_rsw_rank1_unchecked", {}),
+    ("src/bitvector/rs_wide.rs", "RSWide", "rank1", "g_rsw_rank1", {}),
+    ("src/bitvector/rs_wide.rs", "RSWide", "select1_subblock", "g_rsw_select1_subblock", {}),
+    ("src/bitvector/rs_wide.rs", "RSWide", "select0_subblock", "g_rsw_select0_subblock", {}),
+    ("src/bitvector/rs_wide.rs", "RSWide", "select1_unchecked", "g_rsw_select1_unchecked", {}),
+    ("src/bitvector/rs_wide.rs", "RSWide", "select0_unchecked", "g_rsw_select0_unchecked", {}),
+    ("src/bitvector/rs_wide.rs", "RSWide", "select1", "g_rsw_select1", {}),
+    ("src/bitvector/rs_wide.rs", "RSWide", "select0", "g_rsw_select0", {}),
+    # ---- group rss: SuperblockPlain / RSSupportPlain (both block sizes)
+    ("src/qvector/rs_qvector/rs_support_plain.rs", "SuperblockPlain", "get_block_counter", "g_sb_get_block_counter", {}),
+    ("src/qvector/rs_qvector/rs_support_plain.rs", "SuperblockPlain", "block_predecessor", "g_sb_block_predecessor", {}),
+    ("src/qvector/rs_qvector/rs_support_plain.rs", "RSSupportPlain", "superblock_index", "g_rss256_superblock_index", {"B_SIZE": 256}),
+    ("src/qvector/rs_qvector/rs_support_plain.rs", "RSSupportPlain", "block_index", "g_rss256_block_index", {"B_SIZE": 256}),
+    ("src/qvector/rs_qvector/rs_support_plain.rs", "RSSupportPlain", "rank_block", "g_rss256_rank_block", {"B_SIZE": 256}),
+    ("src/qvector/rs_qvector/rs_support_plain.rs", "RSSupportPlain", "select_block", "g_rss256_select_block", {"B_SIZE": 256}),
+    ("src/qvector/rs_qvector/rs_support_plain.rs", "RSSupportPlain", "superblock_index", "g_rss512_superblock_index", {"B_SIZE": 512}),
+    ("src/qvector/rs_qvector/rs_support_plain.rs", "RSSupportPlain", "block_index", "g_rss512_block_index", {"B_SIZE": 512}),
+    ("src/qvector/rs_qvector/rs_support_plain.rs", "RSSupportPlain", "rank_block", "g_rss512_rank_block", {"B_SIZE": 512}),
+    ("src/qvector/rs_qvector/rs_support_plain.rs", "RSSupportPlain", "select_block", "g_rss512_select_block", {"B_SIZE": 512}),
 ]
 
 # group -> (source file, owner types or None, first index in TARGETS that belongs to T5)
@@ -102,7 +128,8 @@ GROUP_IMPORTS = {
 }
 
 GL.RESERVED |= set("""while_loop for_loop iter_loop Next Brk Ret Done Retd len concat ounwrap wshl wshr fsqrt fuel Some
-    None option step fin r s v""".split())
+    None option step fin r s v zwrap ziadd zisub zshamt Z left right inl inr pair fst snd S O nil cons xH xO xI N0 Npos
+    Z0 Zpos Zneg eq_refl conj I""".split())
 
 
 # ------------------------------------------------------------------------------ item index with trait info
@@ -269,7 +296,7 @@ class Parser5(Parser):
         t = self.peek()
         if t.kind == "id":
             name = self.subst.get(t.text, t.text)
-            if name in INT or name == "bool":
+            if name in INT or name == "bool" or name in SINT:
                 self.i += 1
                 return name
             if name in ("Option", "Box", "Vec") and self.at("<", 1):
@@ -500,6 +527,8 @@ class FnT5(FnTranslator):
         self.sigs_coq = {s.coq for s in self.sigs.values()}
         self.subst = {}
         self.cparams = dict(subst)
+        if unit.cparams != self.cparams:
+            unit._consts = {}      # values of associated consts depend on the const generic parameters
         unit.cparams = self.cparams
         start = self.pick(unit, owner, fname, trait)
         p = Parser5(unit.toks, start, self.where, {})
@@ -668,6 +697,9 @@ class FnT5(FnTranslator):
     def method_sig(self, sname, rel, m):
         u = self.struct_unit(sname, rel)
         key = (u.rel, sname, m)
+        mono = key + (tuple(sorted(self.cparams.items())),)
+        if self.cparams and mono in self.sigs:
+            return self.sigs[mono]
         if key not in self.sigs:
             self.fail("call to `%s::%s` (not a translated function)" % (sname, m))
         return self.sigs[key]
@@ -675,6 +707,8 @@ class FnT5(FnTranslator):
     # ---- typing
     def ty(self, e, exp, env):
         k = e[0]
+        if k == "lit" and e[2] is None and isinstance(exp, str) and exp in SINT:
+            return exp
         if k == "self":
             return ("record", self.owner, self.unit.rel)
         if k == "ref" or (k == "un" and e[1] == "*"):
@@ -881,6 +915,9 @@ class FnT5(FnTranslator):
             key = (u.rel if u else self.unit.rel, owner, segs[1])
         else:
             self.fail("call `%s`" % "::".join(segs))
+        mono = key + (tuple(sorted(self.cparams.items())),)
+        if self.cparams and mono in self.sigs:
+            return self.sigs[mono]
         if key not in self.sigs:
             self.fail("call to `%s` (not a translated function)" % "::".join(segs))
         return self.sigs[key]
@@ -888,6 +925,23 @@ class FnT5(FnTranslator):
     # ---- expressions
     def emit(self, e, exp, cx):
         k, env = e[0], cx.env
+        if k == "lit" and self.ty(e, exp, env) in SINT:
+            t = self.ty(e, exp, env)
+            if e[1] >= 2 ** (SINT[t] - 1):
+                self.fail("literal %s out of range for %s" % (e[3], t))
+            return "%d%%Z" % e[1], True
+        if k == "cast" and e[2] != "f64" and not self.sqrt_pattern(e) and (e[2] in SINT or self.ty(e[1], None, env) in SINT):
+            src = self.ty(e[1], None, env)
+            if src is None:
+                self.fail("cast of an unsuffixed literal")
+            a = self.val(e[1], None, cx)
+            if e[2] in SINT and src in INT:
+                return app("zwrap", str(SINT[e[2]]), app("Z.of_N", a)), True
+            if e[2] in INT and src in SINT:
+                return app("Z.to_N", "Z.modulo %s (2 ^ %d)%%Z" % (paren(a), INT[e[2]])), True
+            if e[2] in SINT and src in SINT:
+                return (a if SINT[e[2]] >= SINT[src] else app("zwrap", str(SINT[e[2]]), a)), True
+            self.fail("cast from %s to %s" % (src, e[2]))
         if k == "ref" or (k == "un" and e[1] == "*"):
             return self.emit(e[1] if k == "ref" else e[2], exp, cx)
         if k == "var" and e[1] == "None" and e[1] not in env:
@@ -995,6 +1049,33 @@ class FnT5(FnTranslator):
 
     def emit_bin(self, e, exp, cx):
         _, op, A, B = e
+        env = cx.env
+        if op in GL.CMP or op in ("+", "-"):
+            t = self.ty(A, None, env) or self.ty(B, None, env)
+            if t in SINT:
+                self.need(A, t, env, t), self.need(B, t, env, t)
+                a, b = self.val(A, t, cx), self.val(B, t, cx)
+                if op in GL.CMP:
+                    s_ = {"==": app("Z.eqb", a, b), "!=": app("Z.eqb", a, b), "<": app("Z.ltb", a, b), "<=": app("Z.leb", a, b),
+                          ">": app("Z.ltb", b, a), ">=": app("Z.leb", b, a)}[op]
+                    return (app("negb", s_) if op == "!=" else s_), True
+                return app("ziadd" if op == "+" else "zisub", str(SINT[t]), a, b), False
+        if op in ("<<", ">>") and B[0] != "lit":
+            tb = None
+            try:
+                tb = self.ty(B, None, env)
+            except Unsupported:
+                tb = None
+            if tb in SINT:
+                t = self.need(e, exp, env)
+                if t not in INT:
+                    self.fail("shift at type %s" % (t,))
+                self.need(A, t, env, t)
+                a = self.val(A, t, cx)
+                b = self.val(B, tb, cx)
+                n = self.fresh()
+                cx.lines.append("let! %s := zshamt %s in" % (n, paren(b)))
+                return app("oshr" if op == ">>" else "oshl", str(INT[t]), a, n), False
         if op in ("&&", "||"):
             env = cx.env
             self.need(A, "bool", env, "bool"), self.need(B, "bool", env, "bool")
@@ -1410,6 +1491,8 @@ class EndFlow:
 def coq_type5(t):
     if t in INT:
         return "N"
+    if t in SINT:
+        return "Z"
     if t == "bool":
         return "bool"
     if t == "unit":
@@ -1441,6 +1524,8 @@ def generate(repo, group, count=None):
         try:
             if n < T5_START:
                 # a T3 leaf: translated by the T3 translator, only its signature is needed here
+                if unit.cparams:
+                    unit._consts = {}
                 unit.cparams = {}
                 text, sig = FnTranslator(unit, owner, fname, coq, subst, {k: v for k, v in world.sigs.items() if not getattr(v, "t5", False)}).translate()
                 sig.fields = list(sig.fields)
